@@ -2,7 +2,7 @@
    A case is (chunks, observed); [observed] is what the implementation returned for
    concatStreamReader-style concatenation of the chunks, canonicalised by the harness:
    OVal v | OErr | OPanic.  Error messages are not compared (class only). *)
-From Eino Require Import Base.Util Model.Concat.
+From Eino Require Import Base.Util Model.Concat Model.ConcatMsg.
 
 Inductive obs : Type := OVal (v : cval) | OErr | OPanic.
 
@@ -11,7 +11,7 @@ Fixpoint canon (fuel : nat) (v : cval) : cval :=
   | O => v
   | S f =>
     match v with
-    | CMap m => CMap (sort_by (fun a b => string_ltb (fst a) (fst b)) (map (fun kv => (fst kv, canon f (snd kv))) m))
+    | CMap mt m => CMap mt (sort_by (fun a b => string_ltb (fst a) (fst b)) (map (fun kv => (fst kv, canon f (snd kv))) m))
     | _ => v
     end
   end.
@@ -25,7 +25,8 @@ Fixpoint cval_eqb (fuel : nat) (a b : cval) : bool :=
     | CNum k z, CNum k' z' => N.eqb k k' && Z.eqb z z'
     | CNil, CNil => true
     | COther t p, COther t' p' => N.eqb t t' && N.eqb p p'
-    | CMap m, CMap m' =>
+    | CMap mt m, CMap mt' m' =>
+        N.eqb mt mt' &&
         (fix go (x y : list (string * cval)) : bool :=
            match x, y with
            | [], [] => true
@@ -47,11 +48,69 @@ Definition obs_eqb (a b : obs) : bool :=
   | _, _ => false
   end.
 
+(* ---------------------------------------------------------------- chat messages *)
+
+Definition opt_eqb {A} (e : A -> A -> bool) (a b : option A) : bool :=
+  match a, b with Some x, Some y => e x y | None, None => true | _, _ => false end.
+Fixpoint list_eqb {A} (e : A -> A -> bool) (a b : list A) : bool :=
+  match a, b with
+  | [], [] => true
+  | x :: a', y :: b' => e x y && list_eqb e a' b'
+  | _, _ => false
+  end.
+
+Definition tc_eqb (a b : toolcall) : bool :=
+  opt_eqb Z.eqb (tc_idx a) (tc_idx b) && String.eqb (tc_id a) (tc_id b) && String.eqb (tc_type a) (tc_type b)
+  && String.eqb (tc_name a) (tc_name b) && String.eqb (tc_args a) (tc_args b) && N.eqb (tc_extra a) (tc_extra b).
+Definition usage_eqb (a b : usage) : bool :=
+  Z.eqb (u_prompt a) (u_prompt b) && Z.eqb (u_compl a) (u_compl b) && Z.eqb (u_total a) (u_total b).
+Definition meta_eqb (a b : rmeta) : bool :=
+  String.eqb (rm_finish a) (rm_finish b) && opt_eqb usage_eqb (rm_usage a) (rm_usage b)
+  && opt_eqb (list_eqb String.eqb) (rm_logprobs a) (rm_logprobs b).
+Definition extra_eqb (a b : list (string * cval)) : bool := obs_eqb (OVal (CMap 0 a)) (OVal (CMap 0 b)).
+Definition msg_eqb (a b : msg) : bool :=
+  String.eqb (m_role a) (m_role b) && String.eqb (m_name a) (m_name b) && String.eqb (m_tcid a) (m_tcid b)
+  && String.eqb (m_content a) (m_content b) && list_eqb String.eqb (m_multi a) (m_multi b)
+  && list_eqb tc_eqb (m_tcs a) (m_tcs b) && opt_eqb meta_eqb (m_meta a) (m_meta b)
+  && extra_eqb (m_extra a) (m_extra b).
+
+Inductive mobs : Type := MVal (m : option msg) | MErr | MPanic.
+Inductive lobs : Type := LVal (l : list (option msg)) | LErr | LPanic.
+
+Definition mobs_of (r : res (option msg)) : mobs :=
+  match r with Ok v => MVal v | Err _ => MErr | Panic => MPanic end.
+Definition lobs_of (r : res (list (option msg))) : lobs :=
+  match r with Ok v => LVal v | Err _ => LErr | Panic => LPanic end.
+Definition mobs_eqb (a b : mobs) : bool :=
+  match a, b with
+  | MVal v, MVal v' => opt_eqb msg_eqb v v'
+  | MErr, MErr => true
+  | MPanic, MPanic => true
+  | _, _ => false
+  end.
+Definition lobs_eqb (a b : lobs) : bool :=
+  match a, b with
+  | LVal v, LVal v' => list_eqb (opt_eqb msg_eqb) v v'
+  | LErr, LErr => true
+  | LPanic, LPanic => true
+  | _, _ => false
+  end.
+
+(* api = 0: schema.ConcatMessages called directly on the chunk list (any length);
+   api <> 0: the stream-level entry points (ConcatMessageStream, concatStreamReader, a
+   compose chain that turns a stream into a value) *)
+Definition run_msg (api : N) (chunks : list (option msg)) : res (option msg) :=
+  if N.eqb api 0 then res_map Some (concat_msgs chunks) else msg_stream chunks.
+
 Inductive ccase : Type :=
-| CaseGen (chunks : list cval) (o : obs).
+| CaseGen (chunks : list cval) (o : obs)
+| CaseMsg (api : N) (chunks : list (option msg)) (o : mobs)
+| CaseMsgList (chunks : list (list (option msg))) (o : lobs).
 
 Definition bad (c : ccase) : bool :=
   match c with
   | CaseGen chunks o => negb (obs_eqb (obs_of (concat_stream chunks)) o)
+  | CaseMsg api chunks o => negb (mobs_eqb (mobs_of (run_msg api chunks)) o)
+  | CaseMsgList chunks o => negb (lobs_eqb (lobs_of (msglist_stream chunks)) o)
   end.
 Definition mismatches (cs : list ccase) : list nat := mismatches_from bad 0 cs.
